@@ -869,7 +869,7 @@ pub fn run(tier: Tier, seed: u64) -> i32 {
     "ts-self-types", "jsx-import-source", "deno-types", "deno-types-quoteless", "ts-types", "source-mapping-url"] {
     rep.floor(&format!("construct:{}", c), 50);
   }
-  let n = tier.pick(192000usize, 9600000);
+  let n = tier.pick(192000usize, 28800000);
   let chunk = 500;
   let mut acc = par_run(n / chunk, |ci, acc| {
     let mut rng = Rng::new(seed).fork(ci as u64 ^ 0xC08);
